@@ -299,16 +299,27 @@ def product(psy, invoke):
 
 def replay(member, path):
     '''Fresh schedule of the member with the operations of path applied
-    (refused or target-less ones skipped).  -> (psy, invoke, outcomes)'''
+    (refused or target-less ones skipped; after an operation that fails with
+    anything but a TransformationError the schedule is rebuilt without it).
+    -> (psy, invoke, outcomes)'''
     from psyclone.psyir.transformations import TransformationError
-    psy, invoke = build(member)
-    outcomes = []
-    for op in path:
-        try:
-            outcomes.append(apply_op(invoke.schedule, op))
-        except TransformationError:
-            outcomes.append("refused")
-    return psy, invoke, outcomes
+    skip = set()
+    while True:
+        psy, invoke = build(member)
+        outcomes = []
+        for i, op in enumerate(path):
+            if i in skip:
+                outcomes.append("crashed")
+                continue
+            try:
+                outcomes.append(apply_op(invoke.schedule, op))
+            except TransformationError:
+                outcomes.append("refused")
+            except Exception:    # noqa
+                skip.add(i)
+                break
+        else:
+            return psy, invoke, outcomes
 
 
 # -------------------------------------------------------------------- workers
